@@ -4,7 +4,7 @@
    parts_tile_stmt, classification_stmt, enclose_stmt, empty_stmt,
    fixed_guard, is_pow2_64, kp_ok, vi_guard. *)
 From Coq Require Import ZArith List.
-From PV Require Import Base.U64 C15.C15_Model C15.C15_Spec C15.C15_ProofsGeneric C15.C15_Proofs.
+From PV Require Import Base.U64 C15.C15_Model C15.C15_Spec C15.C15_ProofsGeneric C15.C15_ProofsCover C15.C15_Proofs C15.C15_ProofsF15.
 Import ListNotations.
 Local Open Scope Z_scope.
 
@@ -36,6 +36,31 @@ Theorem tiles_consecutive_indices : forall B L l start stop i,
   forall k, (k < length l)%nat -> s_i (nth k l sub0) = i + Z.of_nat k.
 Proof. exact tiles_indices. Qed.
 Print Assumptions tiles_consecutive_indices.
+
+(* in absolute byte offsets: the parts cover exactly [start, stop) ... *)
+Theorem tiles_cover_exactly : forall B L l start stop i,
+  tiles B L start stop i l ->
+  start <= stop /\
+  forall x, start <= x < stop <->
+            exists p, In p l /\ B (s_i p) + s_off p <= x < B (s_i p) + s_off p + s_len p.
+Proof. exact tiles_cover. Qed.
+Print Assumptions tiles_cover_exactly.
+
+(* ... are ordered and pairwise disjoint ... *)
+Theorem tiles_parts_disjoint : forall B L l start stop i,
+  tiles B L start stop i l ->
+  forall k1 k2 p1 p2, (k1 < k2)%nat ->
+    nth_error l k1 = Some p1 -> nth_error l k2 = Some p2 ->
+    B (s_i p1) + s_off p1 + s_len p1 <= B (s_i p2) + s_off p2.
+Proof. exact tiles_disjoint. Qed.
+Print Assumptions tiles_parts_disjoint.
+
+(* ... and each is non-empty and inside its own block *)
+Theorem tiles_parts_inside_block : forall B L l start stop i,
+  tiles B L start stop i l ->
+  Forall (fun p => 0 <= s_off p /\ 0 < s_len p /\ s_off p + s_len p <= L (s_i p)) l.
+Proof. exact tiles_inside_block. Qed.
+Print Assumptions tiles_parts_inside_block.
 
 Theorem classification_consistent_generic : forall B L divide lo hi offset length,
   split_hyps B L divide lo hi offset length -> 0 < length ->
@@ -172,6 +197,32 @@ Theorem f15_refuted :
 Proof. exact f15_refuted_l. Qed.
 Print Assumptions f15_refuted.
 
+(* the class of F15 is exact: EVERY range_split input with a representable `end`
+   beyond the guard has aend = 0 and does not tile (so known_class hides nothing
+   that would hold) *)
+Theorem f15_class_exact : forall offset length iv,
+  0 <= offset -> 0 < length -> 0 < iv < W64 -> offset + length < W64 ->
+  W64 <= offset + length + iv - 1 ->
+  let r := init (divide_fixed iv) (getlen_fixed iv) offset length in
+  r_aend r = 0 /\ r_abegin r = offset / iv /\
+  (forall fuel, offset / iv + Z.of_nat fuel < W64 ->
+     all_parts (getlen_fixed iv) r fuel = if offset / iv =? 0 then Some [] else None) /\
+  ~ parts_tile_stmt (fun i => i * iv) (getlen_fixed iv) (divide_fixed iv) offset length.
+Proof. exact f15_class_l. Qed.
+Print Assumptions f15_class_exact.
+
+Theorem f15_class_exact_power2 : forall offset length iv,
+  0 <= offset -> 0 < length -> is_pow2_64 iv -> offset + length < W64 ->
+  W64 <= offset + length + iv - 1 ->
+  ~ parts_tile_stmt (fun i => i * iv) (getlen_fixed iv) (divide_p2 iv) offset length.
+Proof. exact f15_class_power2_l. Qed.
+Print Assumptions f15_class_exact_power2.
+
+Example f15_class_nonvacuous :
+  0 <= W64 - 100 /\ 0 < 50 /\ 0 < 4096 < W64 /\ W64 - 100 + 50 < W64 /\
+  W64 <= W64 - 100 + 50 + 4096 - 1 /\ is_pow2_64 4096.
+Proof. exact f15_class_ex. Qed.
+
 (* F19 (repaired by commit 744eaa1): empty_range_fixed was false for the
    pre-fix aligned_parts_t::end() *)
 Theorem empty_range_prefix_refuted :
@@ -181,3 +232,21 @@ Theorem empty_range_prefix_refuted :
   (forall fuel, aligned_parts (getlen_fixed 2) r fuel = Some []).
 Proof. exact empty_range_prefix_refuted_l. Qed.
 Print Assumptions empty_range_prefix_refuted.
+
+(* the class of F19 is exact as well: with the pre-fix end() EVERY empty range whose
+   offset is not on a block boundary made aligned_parts() run away *)
+Theorem f19_prefix_class_generic : forall B L divide lo hi offset,
+  split_hyps B L divide lo hi offset 0 -> d_rem (divide offset) <> 0 ->
+  let r := init divide L offset 0 in
+  forall fuel, d_down (divide offset) + 1 + Z.of_nat fuel < W64 ->
+  aligned_parts_prefix L r fuel = None.
+Proof. exact f19_class_generic_l. Qed.
+Print Assumptions f19_prefix_class_generic.
+
+Theorem f19_prefix_class_fixed : forall offset iv,
+  fixed_guard offset 0 iv -> offset mod iv <> 0 ->
+  let r := init (divide_fixed iv) (getlen_fixed iv) offset 0 in
+  forall fuel, offset / iv + 1 + Z.of_nat fuel < W64 ->
+  aligned_parts_prefix (getlen_fixed iv) r fuel = None.
+Proof. exact f19_class_fixed_l. Qed.
+Print Assumptions f19_prefix_class_fixed.
